@@ -47,6 +47,7 @@ PROJ = 'c12proj'
 SUITES = ['sA', 'sB', 'sC']
 SETUPS = {'su1': {'exclude': []}, 'su2': {'exclude': ['sB']}}
 BAD = {'FAIL', 'ERROR', 'TIMEOUT', 'UNEXPECTEDPASS'}
+NEVER_FINISHES = 'run/meson-test-never-finishes'
 HANG_S = 12          # a hanger that is never killed ends by itself after this many seconds (and then reports exit 0)
 
 T_PY = r'''
@@ -513,7 +514,7 @@ def check_invocation(tests: T.List[dict], inv: dict, bld: str, work: str, ev: T.
             r = run_sub(cmd, cwd=bld, env=env, timeout=600)
         except _sp.TimeoutExpired:
             started = sorted({run.tid for run in parse_events(log)}) if os.path.exists(log) else []
-            return Failure('run/meson-test-never-finishes', case,
+            return Failure(NEVER_FINISHES, case,
                            f'`meson {" ".join(cmd)}` did not finish within 300 s and, started again, within 600 s (every test of the set ends by '
                            f'itself after at most {HANG_S} s); tests that were started: {started}; selected (model): {run_names}')
     runs = parse_events(log)
@@ -851,6 +852,8 @@ def _gen_shard(shard: T.Tuple[int, int, bool], ev: Evidence, fails: T.List[Failu
     buckets: T.Dict[str, Failure] = {}
     try:
         def body(case: dict) -> None:
+            if NEVER_FINISHES in buckets:
+                return          # every further case of that kind would wait out both limits again: the shard ends here
             # the failing invocation alone is the replay case
             for inv in case['invs']:
                 f = check_case({'tests': case['tests'], 'inv': inv}, os.path.join(work, 'case'), ev)
@@ -862,7 +865,7 @@ def _gen_shard(shard: T.Tuple[int, int, bool], ev: Evidence, fails: T.List[Failu
         strat = case_strategy(12 if quick else 24, 2 if quick else 3)
         hypothesis.seed(seed)(hyp_settings(n)(given(strat)(body)))()
         for sig, f in buckets.items():
-            fails.append(shrink_failure(f, os.path.join(work, 'shrink'), 10 if quick else 40))
+            fails.append(f if sig == NEVER_FINISHES else shrink_failure(f, os.path.join(work, 'shrink'), 10 if quick else 40))
     finally:
         shutil.rmtree(work, ignore_errors=True)
 
